@@ -63,7 +63,7 @@ def strip_generics(s):
     out = []
     i, n = 0, len(s)
     while i < n:
-        if s.startswith('::<', i):
+        if s.startswith('::<', i) and not s.startswith('::<impl ', i):
             d = 0; j = i + 2
             while j < n:
                 if s[j] == '<':
